@@ -33,7 +33,7 @@ BOUNDS = ("Decided for constant-speed curves in ARC-LENGTH terms only: the curve
           "(numpy hypot/arctan2 return recognisable dummies). Units switch: for every "
           "resolution r > 0, mm -> in -> mm returns r (up to 1e-9 relative) and mm -> in divides by "
           "25.4. NOT decided: chord lengths of curved shapes, chord-error bound, shapes that are "
-          "not constant speed (spline, spiral).")
+          "not constant speed (spline, spiral). Plus second-path cells: two paths in a row on one builder (the first at a 10x coarser resolution, or traversed at a non-constant speed with more samples, or identical), the second starting where the first ended; solver over both lengths; the segments of the SECOND path meet the same bounds.")
 ASSUMPTIONS = [
     "samples of a constant-speed curve are equally spaced in arc length (stub curve function)",
     "np.diff, np.linalg.norm, np.hypot/np.abs on coordinate columns, np.vstack and boolean-mask "
@@ -139,24 +139,30 @@ class FilterNp:
     def vstack(parts):
         out = []
         for p in parts:
-            out.extend(p.xs)
+            if isinstance(p, SymPts):
+                out.extend(p.xs)
+            else:                      # a single point (x, y, z) on the line: its arc length
+                out.append(p[0] / U[0])
         return SymPts(out)
 
     def __getattr__(self, name):
         return getattr(_np, name)
 
 
-def _run_parametric(g, L, N, res):
-    """Run the real parametric() with the stub curve; returns the exception or None."""
+def _run_parametric(g, L, N, res, start=0.0, warp=False):
+    """Run the real parametric() with the stub curve (a straight run of length L along U that
+    begins at arc length `start`; warp=True: traversed at a non-constant speed, s = start + L*t*t);
+    returns the exception or None."""
     g.set_resolution(res)
     if not MODE.symbolic:
         # concrete replay: the real numpy code on a real ndarray
         def real_curve(thetas):
-            return _np.column_stack((thetas * L * U[0], thetas * L * U[1], thetas * L * U[2]))
+            ss = start + L * (thetas * thetas if warp else thetas)
+            return _np.column_stack((ss * U[0], ss * U[1], ss * U[2]))
         return attempt(g.trace.parametric, real_curve, L)
 
     def curve(thetas):
-        return SymPts([float(t) * L for t in thetas.tolist()])
+        return SymPts([start + (float(t) * float(t) if warp else float(t)) * L for t in thetas.tolist()])
 
     old = tracer_mod.np
     tracer_mod.np = FilterNp()
@@ -217,6 +223,71 @@ def _make(N, res, rel):
                 return V("inner-segment-shorter-than-0.9-resolution",
                          lambda: f"segment {k} has length {seg!r}; {ctx()}")
             prev = x
+        reached("checked")
+        return None
+    return h
+
+
+def _make_second(N, res, prev):
+    """Two paths traced one after the other on the same builder; the second one starts where the
+    first ended. The segments of the SECOND path are held to the same bounds as those of a path on
+    a fresh builder (nothing of the first path's spacing, resolution or sample pattern may carry
+    over). prev: 'coarse-short' = a short path at a 10x coarser resolution, 'warped' = a path with
+    at least as many samples traversed at a non-constant speed, 'same' = an identical path."""
+    def h(L1: Finite, L: Finite):
+        assume(L > 0)
+        assume(L1 > 0)
+        q = 10 * L / res
+        if N == 2:
+            assume(q < 3)
+        else:
+            assume(q >= N)
+            assume(q < N + 1)
+        if prev == "coarse-short":
+            res1 = 10 * res
+            assume(10 * L1 / res1 < 3)
+        else:
+            res1 = res
+            q1 = 10 * L1 / res1
+            assume(q1 >= N + 1)
+            assume(q1 < N + 2)
+        pre = mkpre(pos=(0.0, 0.0, 0.0))
+        g, rec = prepare(pre)
+        rec.clear()
+        e = _run_parametric(g, L1, None, res1, warp=(prev == "warped"))
+        if e is not None:
+            msg = f"{exc_name(e)}: {e}"
+            return V("parametric-unexpected-exception", lambda: f"first path: {msg}")
+        n1 = len(split_lines(rec.text()))
+        e = _run_parametric(g, L, N, res, start=L1)
+        if e is not None:
+            msg = f"{exc_name(e)}: {e}"
+            return V("parametric-unexpected-exception", lambda: f"second path: {msg}")
+        try:
+            allx = _vertices(pre, rec)
+        except Malformed as mf:
+            return V("parametric-malformed-output", str(mf))
+        xs = allx[n1:]
+        ctx = lambda: f"first path L1={L1!r} at res {res1} ({prev}), second L={L!r} res={res} N={N}: vertices {allx!r}"  # noqa: E731
+        if n1 == 0 or not num_eq(allx[n1 - 1], L1, scale=4.0):
+            return V("path-does-not-end-on-target", lambda: "first path; " + ctx())
+        if not xs:
+            return V("no-segments-emitted", ctx)
+        if not num_eq(xs[-1], L1 + L, scale=4.0):
+            return V("path-does-not-end-on-target", ctx)
+        prevx = allx[n1 - 1]
+        m = len(xs)
+        for k, x in enumerate(xs):
+            seg = x - prevx
+            if not (seg > 0):
+                return V("vertices-do-not-advance", ctx)
+            if seg > 1.12 * res:
+                return V("second-path-segment-longer-than-resolution",
+                         lambda: f"segment {k} has length {seg!r}; {ctx()}")
+            if 0 < k < m - 1 and seg < 0.9 * res - 1e-9:
+                return V("second-path-inner-segment-shorter-than-0.9-resolution",
+                         lambda: f"segment {k} has length {seg!r}; {ctx()}")
+            prevx = x
         reached("checked")
         return None
     return h
@@ -296,6 +367,11 @@ def cells(tier):
                 out.append(Cell(f"filter|N={N}|res={res}|{'rel' if rel else 'abs'}", _make(N, res, rel),
                                 budget_s=200 if quick else 900, must_reach=("checked",),
                                 entry="PathTracer.parametric/_filter_segments"))
+    for N in ((6, 14, 23) if quick else range(2, 31)):
+        for prev in ("coarse-short", "warped", "same"):
+            out.append(Cell(f"second-path|N={N}|res=0.1|after={prev}", _make_second(N, 0.1, prev),
+                            budget_s=300 if quick else 900, must_reach=("checked",),
+                            entry="PathTracer.parametric/_filter_segments (two paths in a row)"))
     for N in range(2, 9 if quick else 13):
         out.append(Cell(f"halving|N={N}|res=0.1", _make_halving(N, 0.1), budget_s=300 if quick else 900,
                         must_reach=("checked",), entry="PathTracer.parametric"))
